@@ -717,21 +717,25 @@ class C17(core.PropertyCheck):
             for k in range(30 if tier == "quick" else 300):
                 T = os.path.realpath(tempfile.mkdtemp(prefix="snooty-verif-c17rescan-", dir=TMPBASE))
                 try:
-                    root = os.path.join(T, "proj")
+                    proj = os.path.join(T, "proj")
+                    root = os.path.join(proj, "source")
                     dirs = ["a", "b", "a/deep", "c"]
                     for d in dirs:
                         os.makedirs(os.path.join(root, d), exist_ok=True)
                         open(os.path.join(root, d, "p.txt"), "w").write("x\n")
+                        open(os.path.join(root, d, "extracts-q.yaml"), "w").write("ref: q\ncontent: x\n")
                     open(os.path.join(root, "index.txt"), "w").write("x\n")
+                    open(os.path.join(proj, "snooty.toml"), "w").write('name = "outer"\n')
+                    extra = []   # YAML files written between two scans
 
                     def state():
                         return {d for d in dirs if os.path.exists(os.path.join(root, d, "snooty.toml"))}
 
-                    def expected(nested):
-                        out = {"index.txt"}
+                    def expected(nested, leaf="p.txt"):
+                        out = {"index.txt"} if leaf == "p.txt" else set(extra)
                         for d in dirs:
                             if not any(d == nd or d.startswith(nd + "/") for nd in nested):
-                                out.add(d + "/p.txt")
+                                out.add(d + "/" + leaf)
                         return out
 
                     for d in dirs:
@@ -739,7 +743,7 @@ class C17(core.PropertyCheck):
                             open(os.path.join(root, d, "snooty.toml"), "w").write('name = "n"\n')
                     for step in range(3):
                         diags = {}
-                        got = {os.path.relpath(str(p), root) for p in util.get_files(Path(root), (".txt",), Path(root) if rng.random() < 0.5 else None, diags)}
+                        got = {os.path.relpath(str(p), root) for p in util.get_files(Path(root), (".txt",), Path(proj) if rng.random() < 0.5 else None, diags)}
                         rescans += 1
                         nested = state()
                         top = {nd for nd in nested if not any(nd.startswith(o + "/") for o in nested if o != nd)}
@@ -750,6 +754,21 @@ class C17(core.PropertyCheck):
                                                   f"(expected {sorted(expected(nested))}), NestedProject reported for {sorted(reported)} (expected {sorted(top)})"),
                                          "key": "rescan"})
                             break
+                        # the same tree through the project's own listing of its YAML sources (a configuration opened anew each time,
+                        # as a rebuild or a reopened workspace does)
+                        from snooty.types import ProjectConfig
+                        cfg, _ = ProjectConfig.open(Path(proj))
+                        goty = {fid.as_posix() for fid in cfg.get_files_by_extension((".yaml",))}
+                        if goty != expected(nested, "extracts-q.yaml"):
+                            viol.append({"case": {"kind": "rescan-yaml", "step": step, "nested": sorted(nested), "got": sorted(goty)},
+                                         "desc": (f"rescan: listing number {step + 1} of the YAML sources of one project in one process, nested projects now "
+                                                  f"{sorted(nested)}, files written since the first listing {extra}: yielded {sorted(goty)} "
+                                                  f"(expected {sorted(expected(nested, 'extracts-q.yaml'))})"),
+                                         "key": "rescan-yaml"})
+                            break
+                        if rng.random() < 0.5:
+                            extra.append(f"steps-new{step}.yaml")
+                            open(os.path.join(root, extra[-1]), "w").write("title: t\nref: r\ncontent: x\n")
                         # toggle some markers before the next scan
                         for d in dirs:
                             if rng.random() < 0.4:
